@@ -32,7 +32,33 @@ class SFun:
             polys = _polys_of(x)
             sup = sorted(base_support(polys))
             if len(sup) > MAXSUP:
-                raise OutOfReach("support too large for point-wise evaluation")
+                # definitional extension: name every wide AFFINE bit by a fresh atom a (a = poly is added to the path
+                # condition; Gaussian elimination then pivots on an ordinary input atom, never on a), so that the finite
+                # function is over the few fresh atoms.  Sound and complete; only affine bits qualify.
+                from . import core as _core
+
+                if len(polys) > MAXSUP or not all(_core.pis_affine(q) and not (_core.patoms(q) & set(C.gates)) for q in polys):
+                    if _core.DEBUG:
+                        for q in polys:
+                            for a in _core.patoms(q):
+                                if a in C.gates:
+                                    g = C.gates[a]
+                                    print("   gate", C.names[a], g[0], [(len(c), max((len(m) for m in c), default=0)) for c in g[1]][:12] if g[0] == "and" else "")
+                        import traceback; traceback.print_stack(limit=7)
+                        print("SFun.of: cannot name bits:", [(len(q), max((len(m) for m in q), default=0), [C.names[a] for a in _core.patoms(q) if a in C.gates][:3]) for q in polys])
+                    raise OutOfReach("support too large for point-wise evaluation")
+                named = []
+                for q in polys:
+                    q = _core.norm_under_pc(q)
+                    if len(q) <= 1 and all(len(m) <= 1 for m in q):
+                        named.append(q)
+                        continue
+                    a = C.fresh("def%d" % C.natoms)
+                    C.nonlin.add(a)
+                    _core.assume(_core.norm_under_pc(pvar(a) ^ q ^ ONE))
+                    named.append(pvar(a))
+                polys = named
+                sup = sorted(base_support(polys))
             tts, full = tt_eval(polys, sup)
             n = 1 << len(sup)
             return SFun(sup, [sum(((tts[b] >> j) & 1) << b for b in range(len(polys))) for j in range(n)])
